@@ -778,6 +778,10 @@ func checkDescriptorGuard(p *Program, r *Report, pv *Prov, fn *ssa.Function) {
 				if a.Pol && a.E.Op == "binop" && a.E.Name == "==" && isLenMd(a.E.Args[0]) && a.E.Args[1].Op == "const" && a.E.Args[1].Const.ExactString() == "0" {
 					empty = true
 				}
+				// metadata == ""
+				if a.Pol && a.E.Op == "binop" && a.E.Name == "==" && a.E.Args[0].Val == md && a.E.Args[1].Op == "const" && a.E.Args[1].Const.ExactString() == `""` {
+					empty = true
+				}
 			}
 			r.Check(empty, "C12.R5", c, pos, "accepts outright only the empty descriptor", "returns true for a non-empty descriptor without parsing it")
 			continue
